@@ -2,14 +2,6 @@ from props import *  # noqa: F401,F403
 
 # ------------------------------------------------------------------------------------------------
 rc_bin("c07_rc", ["harness/c07_histogram.cc"], lib=True)
-# Same sanitizer options as the driver's default plus two memory bounds: with the default
-# malloc_context_size=30 ASan's StackDepot grows by ~18 KB per case here (3M distinct "stacks" per
-# 20k cases: the fast unwinder runs through frame-pointer-less rapidcheck/libstdc++ frames), i.e.
-# ~3 GB per process in the thorough tier.  Depth 6 + a 64 MB quarantine keep a process flat at
-# ~170 MB; use-after-free / overflow detection is unaffected.
-_ASAN = {"ASAN_OPTIONS": "detect_leaks=1:abort_on_error=0:allocator_may_return_null=1:"
-                         "detect_stack_use_after_return=1:symbolize=1:handle_abort=0:"
-                         "malloc_context_size=6:quarantine_size_mb=64"}
 PROPS["C07"] = dict(
     level_text="Reference-model property tests (rapidcheck, ASan/UBSan) at two levels: the Long/Double histogram "
                "aggregation classes directly (Aggregate, Merge in generated binary-tree orders, Diff, ToPoint, clones) "
@@ -43,8 +35,8 @@ PROPS["C07"] = dict(
         SC_NOTE,
     ],
     runs=[
-        run("agg-double", "c07_rc", "agg_double", "rc", dict(procs=4, cases=30000), dict(procs=5, cases=500000), env=_ASAN),
-        run("agg-long", "c07_rc", "agg_long", "rc", dict(procs=4, cases=30000), dict(procs=5, cases=500000), env=_ASAN),
-        run("meter-cycles", "c07_rc", "meter_cycles", "rc", dict(procs=8, cases=8000), dict(procs=6, cases=200000), env=_ASAN),
+        run("agg-double", "c07_rc", "agg_double", "rc", dict(procs=4, cases=30000), dict(procs=5, cases=500000)),
+        run("agg-long", "c07_rc", "agg_long", "rc", dict(procs=4, cases=30000), dict(procs=5, cases=500000)),
+        run("meter-cycles", "c07_rc", "meter_cycles", "rc", dict(procs=8, cases=8000), dict(procs=6, cases=200000)),
     ],
 )
